@@ -20,6 +20,7 @@ type Solver struct {
 	Log     io.Writer
 	timeout int // ms
 	Restarts int
+	UFMul   bool
 }
 
 func NewSolver(timeoutMs int) *Solver {
@@ -44,6 +45,7 @@ func (s *Solver) send(str string) {
 
 func (s *Solver) Reset() {
 	s.pr = NewPrinter()
+	s.pr.ufMul = s.UFMul
 	s.send(fmt.Sprintf("(reset)\n(set-option :produce-models true)\n(set-option :timeout %d)\n", s.timeout))
 }
 
